@@ -84,26 +84,48 @@ func huntRun(toks []string, shared bool, fill, stp byte) int {
 	}
 	recv(huntRA()) // the router is known: spoof loops have something to advertise
 	scribble()
+	hunted := map[string]bool{} // what the hunt list holds if StartHunt keeps its own copy of the MAC
 	for _, t := range toks {
 		k, arg, _ := strings.Cut(t, ":")
 		switch k {
 		case "s":
-			fr := recv(lib.UnHex(arg))
+			f := lib.UnHex(arg)
+			fr := recv(f)
+			hunted[hx(f[6:12])] = true
 			e.icmp6.StartHunt(fr.SrcAddr)
 			scribble()
 		case "t":
+			delete(hunted, arg)
 			e.icmp6.StopHunt(packet.Addr{MAC: net.HardwareAddr(lib.UnHex(arg))})
 		default:
 			return -1
 		}
 	}
-	// let the loops send their first advertisement, then wake them with a router advertisement and count
-	e.conn.WaitQuiet(8*time.Millisecond, 300*time.Millisecond)
+	// waits are by count, not by time, so that a busy machine cannot change the observation: every new loop sends
+	// one advertisement at once; after the wake-up every running hunt sends one more. A short quiet period afterwards
+	// lets advertisements nobody expects (a hunt that should have stopped) show up.
+	var seen [][]byte
+	waitFor := func(enough func() bool) {
+		deadline := time.Now().Add(4 * time.Second)
+		for {
+			seen = append(seen, e.conn.Take()...)
+			if enough() || time.Now().After(deadline) {
+				return
+			}
+			time.Sleep(200 * time.Microsecond)
+		}
+	}
+	// (a loop whose hunt was stopped before its goroutine ran sends nothing: only the hunts still on are waited for)
+	waitFor(func() bool { return countNA(seen) >= len(hunted) })
+	e.conn.WaitQuiet(10*time.Millisecond, 100*time.Millisecond)
 	e.conn.Take()
+	seen = nil
 	recv(huntRA())
 	scribble()
-	e.conn.WaitQuiet(40*time.Millisecond, time.Second)
-	return countNA(e.conn.Take())
+	waitFor(func() bool { return countNA(seen) >= len(hunted) })
+	e.conn.WaitQuiet(15*time.Millisecond, 200*time.Millisecond)
+	seen = append(seen, e.conn.Take()...)
+	return countNA(seen)
 }
 
 // generator
